@@ -45,7 +45,7 @@ Section Sort.
     match l with [] => [] | x :: l' => insert x (isort l') end.
 End Sort.
 
-Definition dec := (Z * word)%type.                 (* (time, path relative to the channel) *)
+Notation dec := (Z * word)%type.                   (* (time, path relative to the channel) *)
 Definition dec_leb (a b : dec) : bool :=
   if fst a <? fst b then true else if fst b <? fst a then false else word_leb (snd a) (snd b).
 
@@ -53,35 +53,47 @@ Definition sort_words (reverse : bool) (l : list word) : list word :=
   if reverse then rev (isort word_leb l) else isort word_leb l.
 
 (* ------------------------------------------------------------------ _decorated_list_slice *)
-Fixpoint take_while {A} (p : A -> bool) (l : list A) : list A :=
-  match l with [] => [] | x :: l' => if p x then x :: take_while p l' else [] end.
+(* (take_while p l, drop_while p l) *)
+Fixpoint span {A} (p : A -> bool) (l : list A) : list A * list A :=
+  match l with
+  | [] => ([], [])
+  | x :: l' => if p x then let r := span p l' in (x :: fst r, snd r) else ([], l)
+  end.
 
-(* bisect.bisect_left(dec_list, (x,), lo) on a list sorted by time: tuple comparison makes
-   (t, ..) < (x,) iff t < x, so the result is the first index >= lo whose time is not < x *)
-Definition bisect_left (times : list Z) (x : Z) (lo : nat) : nat :=
-  Nat.add lo (length (take_while (fun t : Z => t <? x) (skipn lo times))).
+(* The slice is computed on a list sorted by time.  bisect.bisect_left(dec_list, (x,), lo) on such a
+   list returns lo + the number of leading entries from lo on whose time is < x (tuple comparison:
+   (t, ..) < (x,) iff t < x), so dec_list[ks:ke] is described here directly on the list:
+   start_split = (dec_list[:ks], dec_list[ks:]),  end_take = dec_list[ks:ke]. *)
+Definition start_split {A} (time : A -> Z) (l : list A) (st : option Z) (ffill : bool) : list A * list A :=
+  match st with
+  | None => ([], l)
+  | Some s =>
+    let r := span (fun x => time x <? s) l in
+    (* ks == len(dec_list) or dec_list[ks][0] > starttime  ->  ks = max(ks - 1, 0) *)
+    if ffill && (match snd r with [] => true | y :: _ => time y >? s end) then
+      match rev (fst r) with
+      | [] => ([], snd r)
+      | x :: rlo => (rev rlo, x :: snd r)
+      end
+    else r
+  end.
 
-Definition slice_bounds (v : variant) (times : list Z) (st en : option Z) (ffill : bool) : nat * nat :=
-  let n := length times in
-  let ks := match st with
-            | None => O
-            | Some s =>
-              let k := bisect_left times s 0 in
-              if ffill && (Nat.eqb k n || (nth k times 0 >? s)) then Nat.pred k else k
-            end in
-  let ke := match en with
-            | None => n
-            | Some e =>
-              let k := bisect_left times e ks in
-              if v_end_all v then Nat.add k (length (take_while (fun t : Z => t =? e) (skipn k times)))
-              else if Nat.ltb k n && (nth k times 0 =? e) then S k else k
-            end in
-  (ks, ke).
+Definition end_take {A} (v : variant) (time : A -> Z) (l : list A) (en : option Z) : list A :=
+  match en with
+  | None => l
+  | Some e =>
+    let r := span (fun x => time x <? e) l in
+    fst r ++ (if v_end_all v then fst (span (fun x => time x =? e) (snd r))
+              else match snd r with
+                   | y :: _ => if time y =? e then [y] else []
+                   | [] => []
+                   end)
+  end.
 
-Definition sublist {A} (b : nat * nat) (l : list A) : list A := firstn (snd b - fst b) (skipn (fst b) l).
-
-Definition slice {A} (v : variant) (time : A -> Z) (l : list A) (st en : option Z) (ffill : bool) : list A :=
-  sublist (slice_bounds v (map time l) st en ffill) l.
+(* (dec_list[:slice.start], dec_list[slice]) *)
+Definition slice {A} (v : variant) (time : A -> Z) (l : list A) (st en : option Z) (ffill : bool)
+    : list A * list A :=
+  let r := start_split time l st ffill in (fst r, end_take v time (snd r) en).
 
 (* ------------------------------------------------------------------ _yield_matching_files on decorated data *)
 (* a timestamped subdirectory: its time, name, and what os.listdir + _decorate_drf_files give
@@ -113,7 +125,7 @@ Definition chunk (v : variant) (ydmd : bool) (st en : option Z) (prior : list su
   | Some files =>
     let dfs := isort dec_leb files in
     let pre := first && ydmd && negb (match prior with [] => true | _ => false end) && truthy st in
-    let go (dfs : list dec) := (slice v fst dfs st en (first && ydmd), None) in
+    let go (dfs : list dec) := (snd (slice v fst dfs st en (first && ydmd)), None) in
     if pre then
       match dfs, st with
       | [], _ =>
@@ -152,10 +164,10 @@ Fixpoint seq_chunks {A} (cs : list (list A * option err)) : list A * option err 
 (* D: the timestamped subdirectories sorted by (time, name) *)
 Definition yield_channel (v : variant) (ydmd : bool) (st en : option Z) (reverse : bool) (D : list sub)
     : list dec * option err :=
-  let b := slice_bounds v (map s_time D) st en true in
-  let sel := sublist b D in
+  let b := slice v s_time D st en true in
+  let sel := snd b in
   let n := length sel in
-  let prior := rev (firstn (fst b) D) in
+  let prior := rev (fst b) in
   let first (i : nat) := if v_chrono v || negb reverse then Nat.eqb i 0 else Nat.eqb i (n - 1) in
   let chunks := mapi (fun i d => chunk v ydmd st en prior (first i) d) sel in
   if reverse then seq_chunks (map (fun c : list dec * option err => (rev (fst c), snd c)) (rev chunks))
